@@ -58,6 +58,29 @@ def peJ (A : PE) : Json :=
   Json.mkObj [("arg_tys", jList tyJ A.argTys), ("nodes", jList nodeJ A.nodes), ("yield", srcJ A.yld),
     ("switches", jList swJ A.switches)]
 
+def nodeOf (j : Json) : Except String Node := do
+  -- "ops" entries are [name, wiring]; the model assumes positional wiring (F09): anything else is rejected
+  let nOps ← (← arr (← field j "operands")).toList.mapM srcOf
+  let ops ← listOf (fun o => do
+    match (← arr o).toList with
+    | [n, w] =>
+      let wl ← listOf int w
+      if wl != (List.range nOps.length).map Int.ofNat then throw "non-positional region wiring: outside the model"
+      str n
+    | _ => throw "bad op entry") (← field j "ops")
+  return { id := ← str (← field j "id"), ops := ops, operands := nOps, sw := ← nat (← field j "sw"),
+           resTy := ← tyOf (← field j "res_ty") }
+
+def swOf (j : Json) : Except String SwUse := do
+  match (← arr j).toList with
+  | [t] => if (← str t) == "m" then return .mux else throw "bad switch"
+  | [t, x] => if (← str t) == "c" then return .choose (← nat x) else throw "bad switch"
+  | _ => throw "bad switch"
+
+def peOf (j : Json) : Except String PE := do
+  return { argTys := ← listOf tyOf (← field j "arg_tys"), nodes := ← listOf nodeOf (← field j "nodes"),
+           yld := ← srcOf (← field j "yield"), switches := ← listOf swOf (← field j "switches") }
+
 def raisedJ (e : Err) : Json := Json.mkObj [("raised", Json.str e.name)]
 
 partial def termJ : HTerm → Json
@@ -112,14 +135,17 @@ def history : Handler := fun j => do
   let encJ := jList (fun e => match e with | .ok p => peJ p | .error e => raisedJ e) encs
   let ks := encs.filterMap fun e => match e with | .ok p => some p | .error _ => none
   let kterm := jList (fun (k : PE) => jOpt termJ (freeEval k (fun _ => 0))) ks
+  -- the body evaluated directly (reference semantics), block argument i named after its data port
+  let bterm := jList (fun (b : KBody) => jOpt termJ
+    (b.eval HTerm.app ((List.range b.argTys.length).map fun i => HTerm.inp (b.renum i)))) bodies
   if ks.length ≠ encs.length then
-    return Json.mkObj [("enc", encJ), ("kterm", kterm), ("steps", Json.arr #[])]
+    return Json.mkObj [("enc", encJ), ("kterm", kterm), ("bterm", bterm), ("steps", Json.arr #[])]
   match groups with
-  | [] => return Json.mkObj [("enc", encJ), ("kterm", kterm), ("steps", Json.arr #[])]
+  | [] => return Json.mkObj [("enc", encJ), ("kterm", kterm), ("bterm", bterm), ("steps", Json.arr #[])]
   | g0 :: r =>
     match groupGraph ks g0 with
-    | .error e => return Json.mkObj [("enc", encJ), ("kterm", kterm), ("steps", Json.arr #[raisedJ e])]
-    | .ok A0 => return Json.mkObj [("enc", encJ), ("kterm", kterm), ("steps", Json.arr (steps ks A0 r g0).toArray)]
+    | .error e => return Json.mkObj [("enc", encJ), ("kterm", kterm), ("bterm", bterm), ("steps", Json.arr #[raisedJ e])]
+    | .ok A0 => return Json.mkObj [("enc", encJ), ("kterm", kterm), ("bterm", bterm), ("steps", Json.arr (steps ks A0 r g0).toArray)]
 
 /-- args: {"ops": [[name, [ty], ty]]} -> {"raised"} | {"pe", "true", "terms": [term|null per switch value]} -/
 def fromOps : Handler := fun j => do
@@ -133,6 +159,34 @@ def fromOps : Handler := fun j => do
     return Json.mkObj [("pe", peJ A), ("true", jNat A.trueSwitches), ("concrete", Json.bool A.isConcrete),
       ("terms", jList (fun i => jOpt termJ (freeEval A (fun _ => i))) (List.range ops.length))]
 
-def handlers : List (String × Handler) := [("c20.history", history), ("c20.fromops", fromOps)]
+def stepG (A : PE) (gs : List PE) : Json :=
+  let self := match decode A A with
+    | .error e => raisedJ e
+    | .ok sw => Json.mkObj [("sw", jList jNat sw)]
+  Json.mkObj [("pe", peJ A), ("ssa_ok", Json.bool A.ssaOk), ("true", jNat A.trueSwitches),
+    ("dec", jList (decJ A) gs), ("self", self)]
+
+def stepsG (gs : List PE) : PE → List Nat → List Json
+  | A, [] => [stepG A gs]
+  | A, i :: r => stepG A gs :: (match gs[i]? with
+    | none => [raisedJ .malformed]
+    | some G => match combine A G with
+      | .error e => [raisedJ e]
+      | .ok A' => stepsG gs A' r)
+
+/-- args: {"graphs": [pe], "plan": [index]}: graphs given directly (hand-built with the dialect's constructors,
+e.g. the inputs of the upstream tests); `plan[0]` is the element, the others are appended in order; after every
+step every graph is decoded. -> {"steps": [step | raised]} -/
+def graphs : Handler := fun j => do
+  let gs ← listOf peOf (← field j "graphs")
+  let plan ← listOf nat (← field j "plan")
+  match plan with
+  | [] => return Json.mkObj [("steps", Json.arr #[])]
+  | i0 :: r => match gs[i0]? with
+    | none => throw "plan index out of range"
+    | some A0 => return Json.mkObj [("steps", Json.arr (stepsG gs A0 r).toArray)]
+
+def handlers : List (String × Handler) :=
+  [("c20.history", history), ("c20.fromops", fromOps), ("c20.graphs", graphs)]
 
 end SnaxVerif.Drv.C20
